@@ -423,14 +423,14 @@ Section WithOracle.
      finds the window moved *)
   Definition write_fuel (n : Z) : nat := Z.to_nat (2 * n + 4).
 
-  Inductive opres : Type := RWrote (n : Z) | RErr (code : Z) | RDone.
+  Inductive opres : Type := RWrote (n : Z) | RRej (code : Z) | RDone.
 
   (* LZMAWriter::write(buf), buf.len() = n *)
   Definition l1_write (s : l1st) (n : Z) : outcome (l1st * opres) :=
     match (match l1_exp s with
            | Some ex => do t <- ck_u64 (l1_cur s + n); Ok (ex <? t)
            | None => Ok false end) with
-    | Ok true => Ok (s, RErr E_INVALID_INPUT)
+    | Ok true => Ok (s, RRej E_INVALID_INPUT)
     | Ok false =>
         do cur <- ck_u64 (l1_cur s + n);
         do r <- l1_write_loop (write_fuel n) (l1_p s) (l1_ps s) (l1_e s) n 0 (l1_tr s);
@@ -442,7 +442,7 @@ Section WithOracle.
   (* LZMAWriter::finish *)
   Definition l1_finish (s : l1st) : outcome (l1st * opres) :=
     if (match l1_exp s with Some ex => negb (ex =? l1_cur s) | None => false end)
-    then Ok (s, RErr E_INVALID_INPUT) else
+    then Ok (s, RRej E_INVALID_INPUT) else
     do r <- set_finishing (l1_p s) (e_lz (l1_e s)) (l1_tr s);
     do r2 <- encode_for_lzma1 (l1_p s) (l1_ps s) (with_lz (l1_e s) (fst r)) (snd r);
     let '(e, ps, tr) := r2 in
@@ -461,14 +461,14 @@ Section WithOracle.
     end.
 
   (* a call history: writes (with the slice length) and the final finish *)
-  Inductive wop : Type := OpWrite (n : Z) | OpFlush | OpFinish.
+  Inductive wop : Type := WoWrite (n : Z) | WoFlush | WoFinish.
 
   Fixpoint l1_run (s : l1st) (ops : list wop) (res : list opres) : outcome (l1st * list opres) :=
     match ops with
     | [] => Ok (s, frev res)
-    | OpWrite n :: r => do x <- l1_write s n; l1_run (fst x) r (snd x :: res)
-    | OpFlush :: r => l1_run s r (RDone :: res)          (* LZMAWriter::flush does nothing *)
-    | OpFinish :: _ => do x <- l1_finish s; Ok (fst x, frev (snd x :: res))   (* finish consumes the writer *)
+    | WoWrite n :: r => do x <- l1_write s n; l1_run (fst x) r (snd x :: res)
+    | WoFlush :: r => l1_run s r (RDone :: res)          (* LZMAWriter::flush does nothing *)
+    | WoFinish :: _ => do x <- l1_finish s; Ok (fst x, frev (snd x :: res))   (* finish consumes the writer *)
     end.
 
   (* -------------------------------------------------------------------------------------------
@@ -599,9 +599,9 @@ Section WithOracle.
   Fixpoint l2_run (s : l2st) (ops : list wop) (res : list opres) : outcome (l2st * list opres) :=
     match ops with
     | [] => Ok (s, frev res)
-    | OpWrite n :: r => do x <- l2_write s n; l2_run (fst x) r (snd x :: res)
-    | OpFlush :: r => do x <- l2_flush s; l2_run (fst x) r (snd x :: res)
-    | OpFinish :: _ => do x <- l2_finish s; Ok (fst x, frev (snd x :: res))
+    | WoWrite n :: r => do x <- l2_write s n; l2_run (fst x) r (snd x :: res)
+    | WoFlush :: r => do x <- l2_flush s; l2_run (fst x) r (snd x :: res)
+    | WoFinish :: _ => do x <- l2_finish s; Ok (fst x, frev (snd x :: res))
     end.
 End WithOracle.
 
